@@ -23,6 +23,7 @@ import sys
 from asyncio import CancelledError
 
 import core
+import tiegen
 
 DRIVERS = [("sem", "Sem"), ("limiter", "Limiter")]
 
@@ -881,6 +882,10 @@ def split_obs(kind, flat):
 
 def replay(path):
     d = json.loads(open(path).read())
+    if d.get("kind") == "tie" and not d.get("case"):
+        print("BROKEN TIE (no failing input was found):", "; ".join(d.get("broken", [])))
+        print("tie_T:", {k: v for k, v in (d.get("tie_T") or {}).items() if k != "segments"})
+        return 1
     params = d.get("params") or d["case"]["params"]
     ops = d.get("ops") or d["case"]["ops"]
     r = run_script(params, ops, quiesce=d.get("quiesce", False))
@@ -931,16 +936,35 @@ def constructor_checks():
     return bad
 
 
+TIE_FILES = ("prims/SemGen.v", "prims/LimiterGen.v", "prims/SemGenEq.v", "prims/LimiterGenEq.v")
+TIE_HELPERS = {"wloop_handoff": "release (pop loop)", "exec_release": "sem_release_entry", "exec_call_release": "sem_release_entry",
+               "lift_cancel_release": "sem_release_entry called from a cancelled continuation",
+               "wloop_wake": "lim_total_tokens_entry (the setter's loop)", "wake_free_rv": "lim_total_tokens_entry"}
+
+
 def check(tier: str) -> int:
     rep = core.Report("C10", tier)
     rep.assumptions = core.TRUSTED_BASE_COMMON + [
         "models prims/Sem.v, prims/Limiter.v hand-written from _asyncio.py:1962-2169 (HEAD, with the F1 fix); cancellation modelled as native Task.cancel() on blocked tasks (superset of what AnyIO scope delivery does to a blocked task)",
+        "tie T: tools/translate_prims.py (python ast -> coq/prims/SemGen.v, LimiterGen.v; fail-closed tables per class in the script) regenerates the segments of Semaphore.acquire/acquire_nowait/release and CapacityLimiter.acquire_on_behalf_of(_nowait)/release_on_behalf_of/total_tokens setter/_notify_next_waiter/wrappers/getters on every run; SemGenEq.v / LimiterGenEq.v prove their interpretation (prims/PrimImp.v: exec) equal to Sem.step / Limiter.step for all states, tasks and borrowers. Trusted in it: the translator's tables (Python construct -> PrimImp atom), the cutting of the async methods at their awaits, CPython/asyncio semantics at the cut points (which continuation runs; locals persist; Event.wait of a fresh event suspends: SemImp/LimiterImp.gstep), container semantics taken from the model files (remove_one, set_add, queue_set, queue_pop, free), checkpoint_if_cancelled() at the start of a call read as a no-op in a live scope (C08 covers the cancelled scope). Not the only tie: the same models are co-simulated against the running code below",
         "Limiter theorems are conditional on `tainted = false`: only release_on_behalf_of(b) before b's acquire returned (O2) taints; duplicate borrowers (F16, fixed by 44feca9) are covered, pre-fix behaviour kept as lim_duplicate_waiter_refuted_pinned; D1 (fixed in /repo by cf4519f) is kept only as the pinned witness lim_cancel_foreign_fastyield_refuted_pinned and its corpus case",
     ]
     import time
     stage = {}
     t0 = time.time()
-    proofs_ok = core.proof_stage(rep, "props/C10.v")
+    # tie T: regenerate SemGen.v / LimiterGen.v from the source under test, then rebuild the cone of props/C10.v (under
+    # the `tiegen` lock: a concurrent check against another tree cannot swap the generated files in between)
+    t_rc, t_out, proofs_ok = tiegen.translate_and_prove(rep, "props/C10.v", "translate_prims.py")
+    tie_T, tie_T_broken = tiegen.describe(rep, t_rc, t_out, proofs_ok, TIE_FILES, TIE_HELPERS)
+    tie_T["translator"] = "tools/translate_prims.py (python ast -> coq/prims/SemGen.v, LimiterGen.v, fail closed)"
+    tie_T["equality_theorems"] = ("SemGenEq.v: tie_acquire_entry, tie_acquire_{yield,wait}_{resumed,cancelled}, tie_acquire_nowait, "
+                                  "tie_release, tie_getters, gstep_eq_step; LimiterGenEq.v: tie_acquire_entry, "
+                                  "tie_acquire_{yield,event}_{resumed,cancelled}, tie_acquire_nowait, tie_release, tie_set_total, "
+                                  "tie_set_total_bad, tie_wrappers, tie_getters, gstep_eq_step (props C10_tie_*)")
+    if tie_T.get("segment") and tie_T.get("where"):
+        tie_T["segment"] = ("Semaphore: " if "Sem" in tie_T["where"] else "CapacityLimiter: ") + tie_T["segment"]
+        tie_T_broken = [b + f" [{tie_T['segment']}]" for b in tie_T_broken]
+    rep.coverage["tie_T"] = tie_T
     stage["proofs"] = round(time.time() - t0, 1); t0 = time.time()
     exe = {short: core.build_driver(short, mod) for short, mod in DRIVERS}
     stage["drivers"] = round(time.time() - t0, 1); t0 = time.time()
@@ -1038,6 +1062,7 @@ def check(tier: str) -> int:
     tie_broken = []
     if not proofs_ok:
         tie_broken.append("proof obligation: " + str(rep.coverage.get("proof_failure", {}).get("where")))
+        tie_broken += tie_T_broken
     if disagreements:
         tie_broken.append("correspondence Sem/Limiter.run_case vs anyio.Semaphore/CapacityLimiter")
     if rejected:
@@ -1046,7 +1071,7 @@ def check(tier: str) -> int:
         tie_broken.append("vm_compute sample disagrees with extracted model")
     if tie_broken and not monitor_hits and not ctor_bad:
         d = min(disagreements, key=lambda d: len(d["ops"])) if disagreements else None
-        rep.violation("; ".join(tie_broken), {"kind": "tie", "broken": tie_broken, "case": d}, no_input=True)
+        rep.violation("; ".join(tie_broken), {"kind": "tie", "broken": tie_broken, "case": d, "tie_T": tie_T}, no_input=True)
 
     flags = {}
     for r in runs:
